@@ -148,24 +148,56 @@ func runGrefcount(c *Ctx) {
 				p    *core.Path
 			}
 			var rps []rp
-			c.Walk("R12", &core.Config{Follow: func(f *types.Func) bool { return pkgFollow(f) && f.Origin() != an.startResolve.Obj }}, core.Entry{Lit: l, Pkg: d.Pkg, Outer: d, Name: lname}, func(p *core.Path) {
-				g := prepare(c, p)
-				did := false
-				locked := false
-				for i, ev := range p.Events {
-					if ev.Kind == core.KAcquire && core.LockName(ev.Lock) == mtx {
-						locked = true
+			// the closure itself, and the goroutines it starts for the contended case (go f(true) /
+			// go func(){…}()): the same rows hold on those
+			relEntries := []core.Entry{{Lit: l, Pkg: d.Pkg, Outer: d, Name: lname}}
+			ei := core.EscapesOf(c.Prog, d)
+			for re := 0; re < len(relEntries); re++ {
+				relEntry := relEntries[re]
+				c.Walk("R12", &core.Config{Follow: func(f *types.Func) bool { return pkgFollow(f) && f.Origin() != an.startResolve.Obj }}, relEntry, func(p *core.Path) {
+					g := prepare(c, p)
+					did := false
+					locked := false
+					for i, ev := range p.Events {
+						if ev.Kind == core.KGo && len(relEntries) < 6 {
+							var gl *ast.FuncLit
+							if ev.FunVal.Kind == core.VFuncLit {
+								gl = ev.FunVal.Lit
+							} else if v := identVar(ev.Call.Fun, ev.Frame); v != nil && len(ei.Bound[v]) == 1 {
+								gl = ei.Bound[v][0]
+							}
+							dup := gl == nil
+							for _, x := range relEntries {
+								dup = dup || x.Lit == gl
+							}
+							if !dup {
+								binds := map[types.Object]core.Value{}
+								k := 0
+								for _, fl := range gl.Type.Params.List {
+									for _, n := range fl.Names {
+										if k < len(ev.ArgVals) && ev.ArgVals[k].Kind == core.VBool {
+											binds[d.Pkg.TypesInfo.Defs[n]] = ev.ArgVals[k]
+										}
+										k++
+									}
+								}
+								relEntries = append(relEntries, core.Entry{Lit: gl, Pkg: d.Pkg, Outer: d, Binds: binds, Name: lname + ".go"})
+							}
+						}
+						if ev.Kind == core.KAcquire && core.LockName(ev.Lock) == mtx {
+							locked = true
+						}
+						if isFn(ev, an.startResolve) {
+							did = true
+							a.requireGuard("R12", lname+"/restart", g, i, false, eq(gen, nonce), "re-resolving from released()")
+							a.note("R12", lname+"/restart/locked", ev.Pos, !holdsLock(ev, mtx), "released() restarts under mtx", "released() restarts without holding mtx", p)
+						}
 					}
-					if isFn(ev, an.startResolve) {
-						did = true
-						a.requireGuard("R12", lname+"/restart", g, i, false, eq(gen, nonce), "re-resolving from released()")
-						a.note("R12", lname+"/restart/locked", ev.Pos, !holdsLock(ev, mtx), "released() restarts under mtx", "released() restarts without holding mtx", p)
+					if locked && p.End == core.EndReturn {
+						rps = append(rps, rp{g.litsBefore(len(p.Events), false), did, p})
 					}
-				}
-				if locked && p.End == core.EndReturn {
-					rps = append(rps, rp{g.litsBefore(len(p.Events), false), did, p})
-				}
-			})
+				})
+			}
 			for _, r := range rps {
 				if r.did {
 					continue
@@ -285,6 +317,32 @@ func runGrefcount(c *Ctx) {
 				}
 				if callsField(ev, refcb) {
 					a.requireGuard("R6a", enclosingName(c, ev)+"/call(Ref.cb)", g, i, false, fnot(eq("nil", refcb)), "calling the reference callback")
+				}
+				// the error container mirrors valueErr: a path that drops an error (valueErr = nil, not known
+				// nil before) also empties targetErr, or has shown there is none
+				if assignsField(ev, "refcount.RefCount.valueErr", "nil") {
+					knownNil, _ := implies(g.litsBefore(i, true), eq("nil", "refcount.RefCount.valueErr"))
+					if !knownNil {
+						mirrored := false
+						var after []*r2Lit
+						for j := i + 1; j < len(p.Events) && g.sec[j] == g.sec[i]; j++ {
+							b := p.Events[j]
+							if (b.Kind == core.KCall || b.Kind == core.KEnter) && b.Callee != nil && b.Callee.Name() == "SetValue" {
+								if fv := fieldVar(callRecv(b.Call), b.Frame); fv != nil && core.FieldName(fv) == "refcount.RefCount.targetErr" {
+									mirrored = true
+								}
+							}
+							if g.lits[j] != nil {
+								after = append(after, g.lits[j])
+							}
+						}
+						if !mirrored {
+							mirrored, _ = implies(after, eq("nil", "refcount.RefCount.targetErr"))
+						}
+						a.note("R7", "refcount/value-release/error-container-emptied", ev.Pos, !mirrored,
+							"a path that drops a resolved error also empties the error container (or has shown there is none)",
+							"valueErr is reset on a path that neither empties targetErr nor shows it nil: the error container keeps the stale error, and WaitRefCountContainer returns it instead of waiting for the fresh result", p)
+					}
 				}
 			}
 			name := entryName(e)
